@@ -344,3 +344,59 @@ def description_frame(n: int, k: int, as_dict: bool, twice: bool) -> bool:
     if len(eng.writes) != w0 or not all(q.lstrip().upper().startswith("DESCRIBE") for q in new):
         return done(False)
     return done([(d.name, d.type_code) for d in d2] == [(d.name, d.type_code) for d in d1])
+
+
+# ------------------------------------------------------------------ description follows the statement that was just executed, also when its text repeats
+def _repeated_sql(change: int, as_dict: bool, read_first: bool, via: int) -> bool:
+    eng = std_engine()
+    conn = _conn("pyformat", eng)
+    cur = conn.cursor(DictCursor) if as_dict else conn.cursor()
+    sql = "select * from t1"
+    eng.query_result = StubTable(["A", "B"], [(1, 2)])
+    cur.execute(sql)
+    if read_first:
+        d0 = [d.name for d in cur.description]
+        if d0 != ["A", "B"]:
+            return False
+    # something changes the shape of what the same text returns
+    if change == 0:
+        conn.cursor().execute("alter table t1 add column c int")
+        eng.query_result = StubTable(["A", "B", "C"], [(1, 2, 3)])
+        want = ["A", "B", "C"]
+    elif change == 1:
+        conn.cursor().execute("create or replace table t1 (z varchar)")
+        eng.query_result = StubTable(["Z"], [("x",)])
+        want = ["Z"]
+    elif change == 2:
+        cur.execute("use schema s2")
+        eng.query_result = StubTable(["A"], [(9,)])
+        want = ["A"]
+    else:
+        want = ["A", "B"]
+    if via == 0:
+        cur.execute(sql)
+        names = [d.name for d in cur.description]
+        rows = cur.fetchall()
+        width_ok = (not rows) or (len(rows[0]) == len(want))
+        return names == want and width_ok
+    c2 = conn.cursor()
+    c2.execute(sql)
+    return [d.name for d in c2.description] == want and [d.name for d in cur.describe(sql)] == want
+
+
+@ob(
+    "C06.description_follows_the_latest_execution",
+    encodes=["FakeSnowflakeCursor.description/_describe_last_sql/describe", "FakeSnowflakeCursor.execute/_execute"],
+    bounds="the same SQL text executed twice on one cursor (or on a second cursor / through describe()), with description read or not after the first "
+    "run, and between the runs: ALTER TABLE ADD COLUMN | CREATE OR REPLACE with other columns | USE SCHEMA to a same-named table | nothing: the "
+    "description after the second run has the columns of the second result",
+    timeout=(200, 400),
+    stubs=["K1/K2/K6 vf.duckstub.Engine", "K5 StubTable"],
+)
+def repeated_sql(change: int, as_dict: bool, read_first: bool, via: int) -> bool:
+    """
+    pre: 0 <= change <= 3 and 0 <= via <= 1
+    post: _
+    """
+    P = fast.pick
+    return done(fast.native(_repeated_sql, P(change, 4), bool(P(as_dict, 2)), bool(P(read_first, 2)), P(via, 2)))
